@@ -4,7 +4,7 @@ from vlib import common, h263spec as S
 from vlib.common import hexs
 
 THEOREMS = ["C06_sorenson_roundtrip", "C06_baseline_roundtrip", "C06_plus_roundtrip", "C06_plus_inherits", "C06_markers_rejected", "C06_tr_range", "C06_modes_persist"]
-BRIDGES = ["BridgeTables", "BridgePHeader"]
+BRIDGES = ["BridgeTables", "BridgePHeader", "BridgePPrologue"]
 TRAILER = bytes([0xA5, 0x5A, 0xC3, 0x3C, 0x96, 0x69, 0x0F, 0xF0, 0x55])
 
 SOR_FMT = {2: "F", 3: "Q", 4: "Sub", 5: "Ext(Sq,320,240)", 6: "Ext(Sq,160,120)", 7: "Res"}
